@@ -1,6 +1,6 @@
 (* Proofs about the traced determinant / norm / circumsphere kernels of
    triangulation.py (gen/Prims.v). *)
-From Coq Require Import Reals Lra Psatz.
+From Coq Require Import Reals Lra Psatz Bool.
 From AV Require Import Model.PrimsBase Proofs.PrimsLemmas.
 From AVGen Require Import Prims.
 Local Open Scope R_scope.
@@ -58,4 +58,161 @@ Proof.
   split; [apply sqrt_pos|].
   rewrite sqrt_sqrt by apply sum_sq_nonneg2.
   unfold dist2_2, sq. repeat split; field; lra.
+Qed.
+
+(* ---- circumsphere: dimension 3 (closed form) ---- *)
+Ltac rel x p q := set (x := p - q) in *;
+  let E := fresh "E" in assert (E : p = q + x) by (unfold x; ring); clearbody x; subst p.
+
+Lemma fast_3d_circumcircle_spec : forall ax ay az bx b_y bz cx cy cz dx dy dz,
+  det3 (bx - ax) (b_y - ay) (bz - az) (cx - ax) (cy - ay) (cz - az) (dx - ax) (dy - ay) (dz - az) <> 0 ->
+  let '((ox, oy, oz), r) := fast_3d_circumcircle ax ay az bx b_y bz cx cy cz dx dy dz in
+  0 <= r /\
+  dist2_3 ox oy oz ax ay az = r * r /\ dist2_3 ox oy oz bx b_y bz = r * r /\
+  dist2_3 ox oy oz cx cy cz = r * r /\ dist2_3 ox oy oz dx dy dz = r * r.
+Proof.
+  intros ax ay az bx b_y bz cx cy cz dx dy dz H. unfold det3 in H.
+  unfold fast_3d_circumcircle; cbv zeta.
+  rel x1 bx ax. rel y1 b_y ay. rel z1 bz az.
+  rel x2 cx ax. rel y2 cy ay. rel z2 cz az.
+  rel x3 dx ax. rel y3 dy ay. rel z3 dz az.
+  split; [apply sqrt_pos|].
+  rewrite sqrt_sqrt by apply sum_sq_nonneg3.
+  unfold dist2_3, sq.
+  repeat split; field; lra.
+Qed.
+
+(* circumsphere dispatches to the closed forms in dimensions 2 and 3 *)
+Lemma circumsphere2_is_fast : forall ax ay bx b_y cx cy,
+  circumsphere2 ax ay bx b_y cx cy = fast_2d_circumcircle ax ay bx b_y cx cy.
+Proof. reflexivity. Qed.
+Lemma circumsphere3_is_fast : forall ax ay az bx b_y bz cx cy cz dx dy dz,
+  circumsphere3 ax ay az bx b_y bz cx cy cz dx dy dz = fast_3d_circumcircle ax ay az bx b_y bz cx cy cz dx dy dz.
+Proof. reflexivity. Qed.
+
+(* general (determinant) path: dimension 1 and dimension 4 *)
+Lemma circumsphere1_spec : forall a b, a <> b ->
+  let '(o, r) := circumsphere1 a b in 0 <= r /\ sq (o - a) = r * r /\ sq (o - b) = r * r.
+Proof.
+  intros a b H. unfold circumsphere1; cbv zeta.
+  split; [apply sqrt_pos|].
+  match goal with |- context [sqrt (?x * ?x)] => rewrite (sqrt_sqrt (x * x)) by (apply Rle_0_sqr) end.
+  unfold sq; split; field; lra.
+Qed.
+
+Definition det4 (a11 a12 a13 a14 a21 a22 a23 a24 a31 a32 a33 a34 a41 a42 a43 a44 : R) : R :=
+    a11 * det3 a22 a23 a24 a32 a33 a34 a42 a43 a44
+  - a12 * det3 a21 a23 a24 a31 a33 a34 a41 a43 a44
+  + a13 * det3 a21 a22 a24 a31 a32 a34 a41 a42 a44
+  - a14 * det3 a21 a22 a23 a31 a32 a33 a41 a42 a43.
+
+Lemma circumsphere4_spec : forall a0 a1 a2 a3 b0 b1 b2 b3 c0 c1 c2 c3 d0 d1 d2 d3 e0 e1 e2 e3,
+  det4 (b0 - a0) (b1 - a1) (b2 - a2) (b3 - a3) (c0 - a0) (c1 - a1) (c2 - a2) (c3 - a3)
+       (d0 - a0) (d1 - a1) (d2 - a2) (d3 - a3) (e0 - a0) (e1 - a1) (e2 - a2) (e3 - a3) <> 0 ->
+  let '((o0, o1, o2, o3), r) := circumsphere4 a0 a1 a2 a3 b0 b1 b2 b3 c0 c1 c2 c3 d0 d1 d2 d3 e0 e1 e2 e3 in
+  0 <= r /\
+  sq (o0 - a0) + sq (o1 - a1) + sq (o2 - a2) + sq (o3 - a3) = r * r /\
+  sq (o0 - b0) + sq (o1 - b1) + sq (o2 - b2) + sq (o3 - b3) = r * r /\
+  sq (o0 - c0) + sq (o1 - c1) + sq (o2 - c2) + sq (o3 - c3) = r * r /\
+  sq (o0 - d0) + sq (o1 - d1) + sq (o2 - d2) + sq (o3 - d3) = r * r /\
+  sq (o0 - e0) + sq (o1 - e1) + sq (o2 - e2) + sq (o3 - e3) = r * r.
+Proof.
+  intros. unfold det4, det3 in H.
+  unfold circumsphere4; cbv zeta.
+  match goal with |- _ /\ sq (?x0 - _) + sq (?x1 - _) + sq (?x2 - _) + sq (?x3 - _) = _ /\ _ =>
+    set (o0 := x0); set (o1 := x1); set (o2 := x2); set (o3 := x3) end.
+  assert (Lb : 2 * (o0 * (b0 - a0) + o1 * (b1 - a1) + o2 * (b2 - a2) + o3 * (b3 - a3))
+               = (b0*b0+b1*b1+b2*b2+b3*b3) - (a0*a0+a1*a1+a2*a2+a3*a3)).
+  { subst o0 o1 o2 o3. field. lra. }
+  assert (Lc : 2 * (o0 * (c0 - a0) + o1 * (c1 - a1) + o2 * (c2 - a2) + o3 * (c3 - a3))
+               = (c0*c0+c1*c1+c2*c2+c3*c3) - (a0*a0+a1*a1+a2*a2+a3*a3)).
+  { subst o0 o1 o2 o3. field. lra. }
+  assert (Ld : 2 * (o0 * (d0 - a0) + o1 * (d1 - a1) + o2 * (d2 - a2) + o3 * (d3 - a3))
+               = (d0*d0+d1*d1+d2*d2+d3*d3) - (a0*a0+a1*a1+a2*a2+a3*a3)).
+  { subst o0 o1 o2 o3. field. lra. }
+  assert (Le : 2 * (o0 * (e0 - a0) + o1 * (e1 - a1) + o2 * (e2 - a2) + o3 * (e3 - a3))
+               = (e0*e0+e1*e1+e2*e2+e3*e3) - (a0*a0+a1*a1+a2*a2+a3*a3)).
+  { subst o0 o1 o2 o3. field. lra. }
+  clearbody o0 o1 o2 o3.
+  split; [apply sqrt_pos|].
+  rewrite sqrt_sqrt by apply sum_sq_nonneg4.
+  unfold sq. repeat split; lra.
+Qed.
+
+(* ---- point in simplex ---- *)
+Lemma fast_2d_point_in_simplex_spec : forall px py ax ay bx b_y cx cy eps a b,
+  det2 (bx - ax) (b_y - ay) (cx - ax) (cy - ay) <> 0 ->
+  px = ax + a * (bx - ax) + b * (cx - ax) ->
+  py = ay + a * (b_y - ay) + b * (cy - ay) ->
+  (fast_2d_point_in_simplex px py ax ay bx b_y cx cy eps = true <->
+   - eps <= a /\ a <= 1 + eps /\ - eps <= b /\ a + b <= 1 + eps).
+Proof.
+  intros px py ax ay bx b_y cx cy eps a b H -> ->. unfold det2 in H.
+  unfold fast_2d_point_in_simplex; cbv zeta.
+  repeat match goal with |- context [Rltb (- eps) ?x] => 
+     first [ progress (replace x with a by (field; lra)) | progress (replace x with b by (field; lra)) ] end.
+  repeat match goal with |- context [Rltb ?x (- eps)] => 
+     first [ progress (replace x with a by (field; lra)) | progress (replace x with b by (field; lra)) ] end.
+  repeat match goal with |- context [Rleb (- eps) ?x] => 
+     first [ progress (replace x with a by (field; lra)) | progress (replace x with b by (field; lra)) ] end.
+  rcase; split; intros; try discriminate; try reflexivity; try lra.
+Qed.
+
+Lemma point_in_simplex2_is_fast : forall px py ax ay bx b_y cx cy eps,
+  point_in_simplex2 px py ax ay bx b_y cx cy eps = fast_2d_point_in_simplex px py ax ay bx b_y cx cy eps.
+Proof. reflexivity. Qed.
+
+Lemma point_in_simplex3_spec : forall q0 q1 q2 a0 a1 a2 b0 b1 b2 c0 c1 c2 d0 d1 d2 eps u v w,
+  det3 (b0 - a0) (b1 - a1) (b2 - a2) (c0 - a0) (c1 - a1) (c2 - a2) (d0 - a0) (d1 - a1) (d2 - a2) <> 0 ->
+  q0 = a0 + u * (b0 - a0) + v * (c0 - a0) + w * (d0 - a0) ->
+  q1 = a1 + u * (b1 - a1) + v * (c1 - a1) + w * (d1 - a1) ->
+  q2 = a2 + u * (b2 - a2) + v * (c2 - a2) + w * (d2 - a2) ->
+  (point_in_simplex3 q0 q1 q2 a0 a1 a2 b0 b1 b2 c0 c1 c2 d0 d1 d2 eps = true <->
+   - eps < u /\ - eps < v /\ - eps < w /\ u + v + w < 1 + eps).
+Proof.
+  intros q0 q1 q2 a0 a1 a2 b0 b1 b2 c0 c1 c2 d0 d1 d2 eps u v w H -> -> ->. unfold det3 in H.
+  unfold point_in_simplex3; cbv zeta.
+  repeat match goal with |- context [Rltb (- eps) ?x] =>
+     first [ progress (replace x with u by (field; lra)) | progress (replace x with v by (field; lra))
+           | progress (replace x with w by (field; lra)) ] end.
+  rcase; split; intros; try discriminate; try reflexivity; try lra.
+Qed.
+
+(* ---- orientation ---- *)
+Lemma ln_abs_lt_iff d c : d <> 0 -> (ln (Rabs d) < c <-> Rabs d < exp c).
+Proof.
+  intros Hd. assert (0 < Rabs d) by (apply Rabs_pos_lt; assumption).
+  split; intros Hl.
+  - rewrite <- (exp_ln (Rabs d)) by assumption. apply exp_increasing; assumption.
+  - rewrite <- (ln_exp c). apply ln_increasing; assumption.
+Qed.
+
+Lemma ln_zero : ln 0 = 0.
+Proof. unfold ln. destruct (Rlt_dec 0 0) as [r|r]; [exfalso; apply (Rlt_irrefl 0 r)|reflexivity]. Qed.
+
+Lemma orientation_core d :
+  (if Rltb (ln (Rabs d)) (-50) then 0 else sgnR d) = (if Rltb (Rabs d) (exp (-50)) then 0 else sgnR d).
+Proof.
+  destruct (Req_dec d 0) as [->|Hd].
+  - rewrite Rabs_R0, ln_zero, sgnR_zero. destruct (Rltb 0 (-50)), (Rltb 0 (exp (-50))); reflexivity.
+  - pose proof (ln_abs_lt_iff d (-50) Hd) as [A B].
+    destruct (Rltb_spec (ln (Rabs d)) (-50)), (Rltb_spec (Rabs d) (exp (-50))); tauto.
+Qed.
+
+Lemma orientation2_spec : forall f0 f1 g0 g1 o0 o1,
+  let d := det2 (f0 - o0) (f1 - o1) (g0 - o0) (g1 - o1) in
+  orientation2 f0 f1 g0 g1 o0 o1 = if Rltb (Rabs d) (exp (-50)) then 0 else sgnR d.
+Proof.
+  intros. rewrite <- orientation_core. unfold orientation2; cbv zeta.
+  match goal with |- context [sgnR ?x] => replace x with d by (unfold d, det2; ring) end.
+  reflexivity.
+Qed.
+
+Lemma orientation3_spec : forall f0 f1 f2 g0 g1 g2 h0 h1 h2 o0 o1 o2,
+  let d := det3 (f0 - o0) (f1 - o1) (f2 - o2) (g0 - o0) (g1 - o1) (g2 - o2) (h0 - o0) (h1 - o1) (h2 - o2) in
+  orientation3 f0 f1 f2 g0 g1 g2 h0 h1 h2 o0 o1 o2 = if Rltb (Rabs d) (exp (-50)) then 0 else sgnR d.
+Proof.
+  intros. rewrite <- orientation_core. unfold orientation3; cbv zeta.
+  match goal with |- context [sgnR ?x] => replace x with d by (unfold d, det3; ring) end.
+  reflexivity.
 Qed.
